@@ -165,7 +165,18 @@ func cmdVerify(args []string) {
 	}
 	bad := 0
 	for _, key := range keys {
-		e, err := VerifyFunc(p, key)
+		var e *Enc
+		var err error
+		if strings.HasPrefix(key, "lemma.") {
+			err = fmt.Errorf("unknown lemma %s", key)
+			for _, lm := range p.Cs.Lemmas {
+				if lm.Name == strings.TrimPrefix(key, "lemma.") {
+					e, err = VerifyLemma(p, lm)
+				}
+			}
+		} else {
+			e, err = VerifyFunc(p, key)
+		}
 		if err != nil {
 			fmt.Println("ERROR", err)
 			bad++
